@@ -112,7 +112,13 @@ theorem C15_get_stays_in_index (db : Db) (name key : Key) (c : Cmp) (pk sk : Key
   exact idxGetLoop_stays _ _ _ _ _ _ _ _ _ _ (.inl rfl) h
 
 /-- on the current tree both facts hold -/
-theorem C15_on_tree : Facts.secondaryGetChecksIndexName = true ∧ Facts.secondaryGetEndOfKeySpaceSafe = true := by decide
+theorem C15_on_tree : Facts.secondaryGetChecksIndexName = true ∧ Facts.secondaryGetEndOfKeySpaceSafe = true ∧
+    Facts.secondaryIndexRegexAllowsEmptyKey = true := by decide
+
+/-- an index entry with an empty secondary key is stored by the write path; it parses again (fixed D-52:
+    with `[^\x01]+` in the regular expression the list / range-scan iterator panicked on it) -/
+theorem C15_empty_secondary_key_parses :
+    parseIdxKey (idxKey [105] [] [120]) = some ([], pathEscape [120]) := by decide
 
 /-- without the index-name check a CEILING past the last entry of index `i` returns a record of `j`
     (defect D-21; the same witness is replayed on the real code from `corpus/C15`) -/
